@@ -519,7 +519,31 @@ func (r *allocRun) doFree() {
 			target.Mask = net.CIDRMask(l, 128)
 		}
 	}
-	switch k := r.rng.Intn(14); {
+	wide := false
+	var wideBlock int64 = -1
+	switch k := r.rng.Intn(15); {
+	case k == 14: // a prefix WIDER than a block (up to the pool prefix itself and beyond): which Free this is, the
+		// statement does not say - its result is not judged. But if it returns an error it must be without
+		// effect like any failing Free, and if it succeeds the block it released is taken note of.
+		if !p.V4 && p.Page > 0 {
+			b := int64(r.rng.Int63n(int64(p.N)))
+			if r.rng.Intn(2) == 0 {
+				b = 0
+			}
+			l := r.rng.Intn(p.Page)
+			if r.rng.Intn(3) == 0 {
+				l = p.Page - int(min64(uint64(p.Page), uint64(p.Page-c0(p))))
+			}
+			ip := r.addrIn(b, true).Mask(net.CIDRMask(l, 128))
+			class, wide = "wider-than-block", true
+			target.IP = ip
+			setMask(l)
+			if v, ok := p.AddrValue(ip); ok {
+				if idx, in, _ := p.Locate(v); in {
+					wideBlock = int64(idx)
+				}
+			}
+		}
 	case k < 5: // outstanding block, named exactly
 		if b, ok := r.pickBlock(true); ok {
 			class, wantOK, wantIdx = "outstanding", true, b
@@ -609,6 +633,17 @@ func (r *allocRun) doFree() {
 	if r.polluted {
 		return
 	}
+	if wide {
+		if err == nil {
+			if wideBlock >= 0 && r.out[uint64(wideBlock)] {
+				delete(r.out, uint64(wideBlock))
+				r.freed = append(r.freed, uint64(wideBlock))
+			} else {
+				r.polluted = true // it released something the model cannot name: nothing is judged from here on
+			}
+		}
+		return
+	}
 	if wantOK {
 		if err != nil {
 			r.viol("C06", "free-rejects-outstanding:"+baseClass(class), "Free(%s) of outstanding block %d failed: %v", ipnetStr(target), wantIdx, err)
@@ -626,6 +661,15 @@ func (r *allocRun) doFree() {
 		// Show the effect the statement warns about: which outstanding block is handed out again?
 		r.effectProbe()
 	}
+}
+
+// c0 is the pool length as recorded in the case (0 when unknown).
+func c0(p *model.Pool) int {
+	n := 0
+	for v := p.N; v > 1; v >>= 1 {
+		n++
+	}
+	return p.Page - n
 }
 
 func baseClass(c string) string {
